@@ -63,7 +63,12 @@ func buildGroovyMap(pathExprCtx *parser.PathExpressionContext) []core_domain.Cod
 
 func buildBlockStatements(closureContext *parser.ClosureContext) []core_domain.CodeDependency {
 	var results []core_domain.CodeDependency
-	statementsContext := closureContext.BlockStatementsOpt().(*parser.BlockStatementsOptContext).BlockStatements().(*parser.BlockStatementsContext)
+	blockStatements := closureContext.BlockStatementsOpt().(*parser.BlockStatementsOptContext).BlockStatements()
+	if blockStatements == nil {
+		// dependencies { } without any statement
+		return results
+	}
+	statementsContext := blockStatements.(*parser.BlockStatementsContext)
 	for _, blockStatement := range statementsContext.AllBlockStatement() {
 		var result *core_domain.CodeDependency = nil
 
